@@ -55,6 +55,12 @@ impl Parser {
         self.current_token = self.lexer.next_token();
     }
 
+    /// Verification hook: has the parser consumed its whole input?
+    #[cfg(feature = "verif")]
+    pub(crate) fn verif_at_end(&self) -> bool {
+        self.current_token == Token::Eof
+    }
+
     fn __peek_token(&mut self) -> Token {
         self.lexer.__peek_token()
     }
